@@ -6,7 +6,7 @@
 (* bytes that the scanners of pkg/logs and pkg/util treat alike:                 *)
 (*   a  ordinary letter        s  blank           q  double quote               *)
 (*   e  '='                    b  backslash       x  '#'                        *)
-(*   u  a UTF-8 multibyte      t  tab (a control character)                     *)
+(*   u  a UTF-8 multibyte      t  tab (a control character)   l  line feed      *)
 (*   G  a lone byte >= 0x80 (not valid UTF-8)                                   *)
 (*   p  any other printable ASCII punctuation (' % : , ( ) [ ] { } + - . * ? @   *)
 (*      ~ & ; < > | $ ! ^ ` /): the scanners give none of them a meaning; the    *)
@@ -38,9 +38,9 @@
 (* the REAL logs.New on it and has LogLineTrace compare the three.              *)
 EXTENDS Naturals, Sequences, FiniteSets, TLC
 
-Chars   == {"a", "s", "q", "e", "b", "x", "u", "t", "G", "D", "N", "p", "name", "pid"}
+Chars   == {"a", "s", "q", "e", "b", "x", "u", "t", "l", "G", "D", "N", "p", "name", "pid"}
 HexKeys == {"name", "comm", "profile"}
-Ctl     == {"s", "q", "u", "t", "G"}                       \* what makes the kernel write hex
+Ctl     == {"s", "q", "u", "t", "l", "G"}                       \* what makes the kernel write hex
 Hx(c)   == IF c = "G" THEN "D" ELSE "%" \o c
 HxChars == {Hx(c) : c \in Chars \ {"G"}}
 Hexish(c) == c \in HxChars \/ c \in {"D", "N"}
